@@ -122,6 +122,9 @@ class Gen:
             self.tensors.append(t)
             return P.Parameter.from_input(t)
         if k == "const":
+            if o.get("int_consts") and rng.random() < 0.4:
+                # an integer-typed constant (Python int): another data type than the float tensors of the same shape next to it
+                return P.Parameter.from_input(P.ConstantParameter(*shape, value=rng.choice([1, 2, 3])))
             return P.Parameter.from_input(P.ConstantParameter(*shape, value=dy_array(rng, shape)))
         if k == "clamp":
             # two-sided (or one-sided) clamp with values on both sides of the bounds
